@@ -24,7 +24,7 @@ RULE = (
 ASSUMPTIONS = ["only soundness of positive lemma verdicts is a property (the lemma is not complete)", "N = 6 (7 thorough); oracle: vf/oracle/mesh.py"]
 REQUIRED = ["calls.MeshPatt.can_shade", "calls.MeshPatt.can_simul_shade", "calls.MeshPatt.shadable_boxes", "calls.MeshPatt.add_point",
             "calls.MeshPatt.add_increase", "calls.MeshPatt.add_decrease", "calls.MeshPatt.shade", "calls.MeshPatt.ascii_plot",
-            "lemma.positive_single", "lemma.positive_pair", "lemma.table_entries", "insertion.decisions", "plot.parsed", "history.derived_objects"]
+            "lemma.positive_single", "lemma.positive_pair", "lemma.table_entries", "insertion.decisions", "plot.parsed", "history.derived_objects", "history.mixed_lengths"]
 MIN_NONTRIVIAL = 300
 CTX = None
 MON = None
@@ -394,6 +394,24 @@ def run(ctx, spec):
                     chk_pattern(ctx, ep, full=(k < 2 or (i // spec["parts"]) % FULL_EVERY[ctx.tier] == 0))
         ctx.note("exhaustive: every mesh pattern of length <= 2 x every cell / adjacent pair (insertions on every pattern of length <= 1 and on every 12th (quick) / 2nd (thorough) of length 2)")
     else:
+        # mixed-length history in one process: a pattern and a LONGER pattern with the same rank() number (and the
+        # same cells) are asked the same questions one after the other
+        for _ in range(max(8, spec["count"] // 6)):
+            k = rng.choice([1, 2, 2])
+            small = MeshPatt(Perm(rng.sample(range(k), k)), [(x, y) for x in range(k + 1) for y in range(k + 1) if rng.random() < 0.3])
+            big = MeshPatt.unrank(Perm(rng.sample(range(k + 1), k + 1)), small.rank())
+            same_cells = MeshPatt(big.pattern, small.shading)
+            for Q in (small, big, same_cells):
+                kq = len(Q)
+                for x in range(kq + 1):
+                    for y in range(kq + 1):
+                        Q.can_shade((x, y))
+                        if x < kq:
+                            Q.can_simul_shade((x, y), (x + 1, y))
+                free = [(x, y) for x in range(kq + 1) for y in range(kq + 1) if (x, y) not in Q.shading]
+                if free and kq <= 2:
+                    Q.add_point(rng.choice(free), rng.choice([DIR_NONE, DIR_EAST, DIR_NORTH, DIR_WEST, DIR_SOUTH]))
+            ctx.count("history.mixed_lengths")
         for _ in range(spec["count"]):
             k = 3
             p = rng.sample(range(k), k)
